@@ -7,6 +7,7 @@ import (
 	"io"
 	"strconv"
 	"strings"
+	"time"
 	"unicode/utf8"
 
 	"mvdan.cc/sh/v3/expand"
@@ -463,6 +464,18 @@ func c22BashArtifact(cs c22Case) bool {
 		return false
 	}
 	quotedParams := false
+	if f, _ := utf8.DecodeRuneInString(ifsv); utf8.RuneLen(f) > 1 && len(cs.params) >= 2 {
+		// "$*" joins with the multi-byte first IFS character: quoted text containing it (see below)
+		for _, p := range cs.parts {
+			if p.kind == 'D' {
+				for _, d := range p.ds {
+					if d.kind == 't' {
+						return true
+					}
+				}
+			}
+		}
+	}
 	for _, p := range cs.parts {
 		switch p.kind {
 		case 'L', 'S':
@@ -501,14 +514,16 @@ func c22BashArtifact(cs c22Case) bool {
 	return false
 }
 
-// c22BashEmptyParam: unquoted $@ / $* with an empty positional parameter while IFS holds a
-// non-white-space character.  bash joins the parameters with the first IFS character and splits the
-// result again, so an empty parameter can come back as an empty field (`set -- x '' y; IFS=:; $@`
-// gives 3 fields; with IFS=' :' 2); POSIX lets empty fields be discarded here and dash discards
-// them, as the implementation does (finding C22-unquoted-at-empty-param; kept out of the stream).
+// c22BashEmptyParam: unquoted $@ / $* with two or more parameters while the *first* IFS character is
+// not white space.  bash joins the parameters with that character and splits the result again, so
+// an empty parameter, or one that begins or ends with a non-white-space IFS character, comes back
+// with an extra empty field (`set -- x '' y; IFS=:; $@` gives 3 fields, with IFS=' :' 2;
+// `set -- a: b; IFS=:; $@` gives 3).  POSIX lets empty fields be discarded here and dash discards
+// them, as the implementation does (finding C22-unquoted-at-rejoin; kept out of the stream).
 func c22BashEmptyParam(cs c22Case) bool {
-	nonws := strings.Trim(cs.ifsv(), " \t\n") != ""
-	if !nonws {
+	ifsv := cs.ifsv()
+	first, _ := utf8.DecodeRuneInString(ifsv)
+	if ifsv == "" || first == ' ' || first == '\t' || first == '\n' {
 		return false
 	}
 	unq := false
@@ -517,11 +532,22 @@ func c22BashEmptyParam(cs c22Case) bool {
 			unq = true
 		}
 	}
-	if !unq {
+	if !unq || len(cs.params) < 2 {
 		return false
 	}
+	isD := func(r rune) bool {
+		return strings.ContainsRune(ifsv, r) && r != ' ' && r != '\t' && r != '\n'
+	}
 	for _, v := range cs.params {
-		if v == "" {
+		t := strings.TrimFunc(v, func(r rune) bool {
+			return strings.ContainsRune(ifsv, r) && (r == ' ' || r == '\t' || r == '\n')
+		})
+		if t == "" {
+			return true
+		}
+		f, _ := utf8.DecodeRuneInString(t)
+		l, _ := utf8.DecodeLastRuneInString(t)
+		if isD(f) || isD(l) {
 			return true
 		}
 	}
@@ -564,11 +590,11 @@ func c22Search(c *Ctx, cs c22Case, asg bool) (bool, string) {
 	if asg {
 		script = c22AsgScript(cs)
 	}
-	bs := runShell(c, "bash", script)
-	in := runInterp(c, syntax.LangBash, script)
-	if bs.TimedOut {
-		return false, ""
+	bs, ok := c22Bash(c, script)
+	if !ok {
+		return false, "oracle-unavailable"
 	}
+	in := runInterp(c, syntax.LangBash, script)
 	if in.Panic != "" {
 		return true, "interp panicked: " + in.Panic
 	}
@@ -585,6 +611,22 @@ func c22Search(c *Ctx, cs c22Case, asg bool) (bool, string) {
 		return true, fmt.Sprintf("IFS=%s params=%q %s %s: interp gives %q %s, bash gives %q", ifs, cs.params, ctx, src, in.Stdout, in.Err, bs.Stdout)
 	}
 	return false, ""
+}
+
+
+// c22Bash runs the bash oracle; a run that could not be trusted (exec error, timeout, non-zero
+// status with nothing printed — seen under heavy machine load) is retried, then reported as
+// unavailable so that the case is skipped rather than blamed on the implementation.
+func c22Bash(c *Ctx, script string, args ...string) (ShellResult, bool) {
+	var bs ShellResult
+	for try := 0; try < 3; try++ {
+		bs = runShell(c, "bash", script, args...)
+		if bs.Err == "" && !bs.TimedOut && !(bs.Status != 0 && bs.Stdout == "") {
+			return bs, true
+		}
+		time.Sleep(time.Duration(50*(try+1)) * time.Millisecond)
+	}
+	return bs, false
 }
 
 // ---- generators ----
@@ -919,6 +961,10 @@ func c22(c *Ctx) {
 		return shRes{f, w}
 	})
 	for i, sc := range shCases {
+		if results[i].what == "oracle-unavailable" {
+			c.Case("sh\x00"+sc.witness, false, "oracle-unavailable")
+			continue
+		}
 		c.Case("sh\x00"+sc.witness, true, "bash-compared")
 		if results[i].fail {
 			c.Fail(sc.witness, results[i].what)
